@@ -148,7 +148,10 @@ func check(t tcase) *mc.Failure {
 		fi := fileInfo(t.FI)
 		if len(r.chunks) == 0 {
 			if r.normal != "" || r.unified != "" || r.contxt != "" {
-				return mc.Failf(0, "equal inputs but non-empty diff text")
+				return mc.Failf(0, "no chunks but non-empty diff text")
+			}
+			if !eqLines(r.left, r.right) {
+				return mc.Failf(0, "meaning: the diff of %q and %q is empty, so applying any rendering to Left leaves Left, not Right", r.left, r.right)
 			}
 			return nil
 		}
